@@ -27,6 +27,7 @@ S2_SUFFIX = ("Vec::push", "Vec::insert", "Vec::extend_from_slice", "Vec::append"
              "String::push_str", "String::push", "fmt::Write::write_fmt", "fmt::Write::write_str", "fmt::Write::write_char",
              "io::Write::write_all", "io::Write::write_fmt", "io::Write::write", "IndexMap::insert", "IndexMap::insert_full",
              "IndexMap::entry", "IndexSet::insert", "IndexSet::insert_full", "StableGraph::add_node", "StableGraph::add_edge",
+             "StableGraph::remove_node", "StableGraph::remove_edge", "IndexMap::swap_remove", "IndexMap::shift_remove", "Vec::swap_remove", "Vec::remove",
              "Formatter::write_str", "Formatter::write_fmt", "::extend", "DebugList::entry", "DebugMap::entry", "DebugSet::entry",
              "Vec::extend", "::_print", "::_eprint")
 S2_PREFIX = ("wasm_encoder::", "wasm_metadata::")
@@ -118,7 +119,29 @@ class Taint:
         self._closure_params_t = defaultdict(set)   # closure id -> set(param locals tainted) with source
         self._closure_src = {}
 
+    def sink_fns(self):
+        """local functions that (transitively, depth <= 3) perform an ordered accumulation / order-sensitive graph mutation:
+        calling one of them once per item of a hash-ordered iteration is itself order-sensitive."""
+        direct = set()
+        for f in self.db.fns.values():
+            for t in f.calls():
+                p = t.path or ""
+                if (p.endswith(S2_SUFFIX) or p.startswith(S2_PREFIX)) and not any(m.startswith(("log::", "$crate::log")) for m in t.mac):
+                    if not p.endswith(("fmt::Write::write_fmt", "fmt::Write::write_str", "Formatter::write_str", "Formatter::write_fmt", "::extend")):
+                        direct.add(f.id)
+        out = set(direct)
+        for _ in range(3):
+            add = set()
+            for f in self.db.fns.values():
+                if f.id in out:
+                    continue
+                if any(c in out for c in self.db.callees(f, include_fn_operands=False)):
+                    add.add(f.id)
+            out |= add
+        return out
+
     def run(self):
+        self._sinkfns = self.sink_fns()
         # fixpoint on summaries
         for _ in range(6):
             changed = False
@@ -271,6 +294,8 @@ class Taint:
             if targ and p.endswith(S1) and self._is_iterish(f, targ[0]):
                 self.findings.append(Finding(f, src_of(targ[0]), "S1", t, "position-dependent adaptor on a hash-ordered iteration"))
             is_s2 = p.endswith(S2_SUFFIX) or p.startswith(S2_PREFIX)
+            if not is_s2 and b.idx in in_t_loop and p in getattr(self, "_sinkfns", ()) and p in self.db.fns:
+                self.findings.append(Finding(f, in_t_loop[b.idx], "S2", t, "a function that mutates ordered state is called once per item of a hash-ordered iteration"))
             if is_s2 and b.idx in in_t_loop:
                 self.findings.append(Finding(f, in_t_loop[b.idx], "S2", t, "ordered accumulation inside a loop over a hash collection"))
             elif is_s2 and targ and self._is_iterish(f, targ[0]):
